@@ -761,20 +761,70 @@ Proof.
     specialize (KP j n Hj). lia.
 Qed.
 
-(* over every history of producible commands, from the start *)
+(* the manager's other moves leave the reservation bookkeeping alone: the rotation timer only flips am_choked /
+   optimistic flags, a tracker answer only queues candidates and connects peers that are not yet connected *)
+Lemma rotate_go_cnt new_opt i : forall order ps count flips ps' fl,
+  rotate_go ps order new_opt count flips = Ok (ps', fl) -> cnt ps' i = cnt ps i.
+Proof.
+  induction order as [|a rest IH]; intros ps count flips ps' fl H; cbn [rotate_go] in H.
+  - injection H as <- _. reflexivity.
+  - destruct (pget ps a) as [p|] eqn:Ep; [|discriminate].
+    destruct (if count <? MAX_UNCHOKED then _ else _) as [[am c2] fl0].
+    rewrite (IH _ _ _ _ _ H).
+    pose proof (cnt_pset ps a p (set_am_choked p am (match new_opt with [] => p_optimistic p | _ => false end)) i Ep) as C.
+    change (assigned i (set_am_choked p am (match new_opt with [] => p_optimistic p | _ => false end))) with (assigned i p) in C. lia.
+Qed.
+Lemma set_optimistic_cnt i : forall new_opt ps flips ps' fl,
+  set_optimistic ps new_opt flips = Ok (ps', fl) -> cnt ps' i = cnt ps i.
+Proof.
+  induction new_opt as [|a rest IH]; intros ps flips ps' fl H; cbn [set_optimistic] in H.
+  - injection H as <- _. reflexivity.
+  - destruct (pget ps a) as [p|] eqn:Ep; [|discriminate]. rewrite (IH _ _ _ _ H).
+    pose proof (cnt_pset ps a p (set_am_choked p false true) i Ep) as C.
+    change (assigned i (set_am_choked p false true)) with (assigned i p) in C. lia.
+Qed.
+Lemma rotation_InvM m rates new_opt m' fl : change_conn_state m rates new_opt = Ok (m', fl) -> InvM m -> InvM m'.
+Proof.
+  unfold change_conn_state. intros H I.
+  destruct (rotate_go (m_peers m) (map fst (sort_rates rates)) new_opt 0 []) as [[ps1 fl1]| | |] eqn:E1; cbn [bind] in H; try discriminate.
+  cbn [fst snd] in H. destruct (set_optimistic ps1 new_opt fl1) as [[ps2 fl2]| | |] eqn:E2; cbn [bind] in H; try discriminate.
+  injection H as <- _. intros i n Hs. cbn [m_status m_peers fst] in *.
+  rewrite (set_optimistic_cnt i _ _ _ _ _ E2), (rotate_go_cnt _ i _ _ _ _ _ _ E1). exact (I i n Hs).
+Qed.
+Lemma spawn_peer_InvM m : InvM m -> InvM (fst (spawn_peer m)).
+Proof.
+  intros I. unfold spawn_peer. destruct (rev (m_candidates m)) as [|[a id] rest]; [exact I|].
+  destruct (pget (m_peers m) a) eqn:Ep; cbn [fst]; [exact I|].
+  intros i n Hs. cbn [m_status m_peers] in *. rewrite cnt_pset_fresh by exact Ep.
+  rewrite (assigned_choked i (new_peer (Some id) (length (m_plens m))) eq_refl). cbn [b2n]. specialize (I i n Hs). lia.
+Qed.
+Lemma spawn_n_InvM : forall k m acc, InvM m -> InvM (fst (spawn_n k m acc)).
+Proof.
+  induction k as [|k IH]; intros m acc I; cbn [spawn_n]; [exact I|].
+  pose proof (spawn_peer_InvM m I) as I1. destruct (spawn_peer m) as [m1 sp]. apply IH. exact I1.
+Qed.
+Lemma tracker_resp_InvM m peers : InvM m -> InvM (fst (handle_tracker_resp m peers)).
+Proof. intros I. unfold handle_tracker_resp. apply spawn_n_InvM. exact I. Qed.
+
+(* over every history of the manager from the start: producible commands of the tasks, newly accepted connections, the
+   choke-rotation timer with any rate lists and optimistic picks, tracker answers with any peer lists *)
 Inductive mreach : mgr -> Prop :=
 | mreach_init st plens : (forall i n, nthN st i <> Some (Reserved n)) -> mreach (mkmgr st [] [] 0 false plens)
 | mreach_add m a id : mreach m -> pget (m_peers m) a = None ->
     mreach (mkmgr (m_status m) (pset (m_peers m) a (new_peer id (length (m_plens m)))) (m_candidates m) (m_round m) (m_extracted m) (m_plens m))
-| mreach_step m c pick m' r bc sp : mreach m -> producible m c -> mstep m c pick = Ok (m', r, bc, sp) -> mreach m'.
+| mreach_step m c pick m' r bc sp : mreach m -> producible m c -> mstep m c pick = Ok (m', r, bc, sp) -> mreach m'
+| mreach_rotation m rates new_opt m' fl : mreach m -> change_conn_state m rates new_opt = Ok (m', fl) -> mreach m'
+| mreach_tracker m peers : mreach m -> mreach (fst (handle_tracker_resp m peers)).
 
 Theorem reservation_invariant_reachable m : Peer_no_reserve_when_choked = true -> mreach m -> InvM m.
 Proof.
-  intros FR. induction 1 as [st plens H0|m a id _ IH Hf|m c pick m' r bc sp _ IH Hp Hs].
+  intros FR. induction 1 as [st plens H0|m a id _ IH Hf|m c pick m' r bc sp _ IH Hp Hs|m rates new_opt m' fl _ IH Hr|m peers _ IH].
   - intros i n H. exfalso. exact (H0 i n H).
   - intros i n H. cbn [m_status m_peers] in *. rewrite cnt_pset_fresh by exact Hf.
     rewrite (assigned_choked i (new_peer id (length (m_plens m))) eq_refl). cbn [b2n]. specialize (IH i n H). lia.
   - exact (reservation_invariant m c pick m' r bc sp FR IH Hp Hs).
+  - exact (rotation_InvM m rates new_opt m' fl Hr IH).
+  - exact (tracker_resp_InvM m peers IH).
 Qed.
 
 (* ---- C14: the choke rotation keeps the slot bound -------------------------------------------------- *)
